@@ -81,6 +81,7 @@ func main() {
 	repo := flag.String("repo", "/repo", "repository to analyse")
 	noctl := flag.Bool("nocontrols", false, "skip positive controls (development)")
 	discover := flag.String("discover", "", "development: print candidate sites (exhaust)")
+	dumpProps := flag.Bool("dumpprops", false, "print the property/rule table as JSON")
 	flag.Parse()
 	repoDir = *repo
 	if v := os.Getenv("VERIF_DIR"); v != "" {
@@ -101,6 +102,24 @@ func main() {
 	seed := 0
 	if v := os.Getenv("VERIF_SEED"); v != "" {
 		seed, _ = strconv.Atoi(v)
+	}
+	if *dumpProps {
+		type pr struct {
+			ID, Explanation, NotCovered string
+			Rules                       []map[string]interface{}
+		}
+		var out []pr
+		for _, id := range sortedKeys(props) {
+			pd := props[id]
+			x := pr{ID: id, Explanation: pd.Explanation, NotCovered: pd.NotCovered}
+			for _, rid := range pd.Rules {
+				rd := rules[rid]
+				x.Rules = append(x.Rules, map[string]interface{}{"id": rid, "min": rd.Min, "doc": rd.Doc})
+			}
+			out = append(out, x)
+		}
+		writeJSON("/dev/stdout", out)
+		return
 	}
 	if *discover != "" {
 		p, err := Load(nil)
